@@ -413,7 +413,7 @@ theorem replaceVariables_bounded (resolve : Option (Bytes → Bytes))
   cases resolve with
   | some f =>
     obtain ⟨hd, hl⟩ := hres f rfl
-    exact replaceVars_bounded f hd hl _ s (Nat.lt_succ_self _)
+    exact replaceVars_bounded f hd hl _ s (by omega)
   | none =>
     unfold replaceVars
     cases hs : splitDollar s with
@@ -697,7 +697,7 @@ theorem replaceVariables_growth (resolve : Option (Bytes → Bytes)) (K : Nat) (
   cases resolve with
   | some f =>
     obtain ⟨hd, hl⟩ := hres f rfl
-    have := replaceVars_growth f hd K (t.count 36 + 1) [] t (by simp) hl (Nat.lt_succ_self _)
+    have := replaceVars_growth f hd K _ [] t (by simp) hl (by omega : t.count 36 < t.count 36 * 3 + 2 + 1)
     simpa using this
   | none =>
     unfold replaceVars
